@@ -97,6 +97,7 @@ def main():
     ap.add_argument("--flavor", default="sanr")
     ap.add_argument("--max", type=int, default=5)
     ap.add_argument("--no-coq", action="store_true", help="do not rebuild the Coq model / extraction first")
+    ap.add_argument("--idx", action="store_true", help="print the indices of all mismatching cases on one line")
     a = ap.parse_args()
     ctx = vf.Ctx("TRY")
     if not a.no_coq:
@@ -108,6 +109,8 @@ def main():
         if crash[0] < len(cases):
             print("crashing case: %s" % cases[crash[0]][:600])
     print("%d cases, %d mismatches; known NULL+0 reports: %d" % (len(cases), len(mm), sum(ub.values()) - sum(unknown.values())))
+    if a.idx:
+        print("MISMATCH-INDICES " + " ".join(map(str, mm)))
     for k, v in sorted(unknown.items()):
         print("FINDING (UBSan, %d x): %s:%d: %s" % (v, k[0], k[1], k[2]))
     for i in mm[:a.max]:
